@@ -6,7 +6,8 @@ A strict reader of serialised (X)HTML, the specification side of C14 / C05.
 * `strict` reads an *output* string and fails on anything that could be mistaken for markup: `<`, `>`, (`"` inside an
   attribute value) and any `&` that does not start an entity reference.
 * `readForest` is a strict recursive-descent reader of the element syntax the serializer writes: every element closed and
-  properly nested, every attribute value double-quoted (or, in html, a bare boolean attribute), text read by `strict`.
+  properly nested, every attribute value double-quoted (or, in html, a bare boolean attribute), no attribute name twice in
+  a tag, text read by `strict`.
 
 "Entity reference" is read as the code reads it (`RE_AMP`): the name may start with a digit.
 -/
@@ -97,12 +98,14 @@ def readAttrs (fmt : Fmt) : Nat → Str → Option (List (Str × List Tok) × Bo
         | none => none
         | some (v, r3) =>
           match strict attr 0 v, readAttrs fmt fuel r3 with
-          | some toks, some (as, sc, rest) => some ((k, toks) :: as, sc, rest)
+          | some toks, some (as, sc, rest) =>
+            if as.any (fun kv => kv.1 = k) then none else some ((k, toks) :: as, sc, rest)   -- no duplicate names
           | _, _ => none
       | _ =>
         if fmt = .html then
           match readAttrs fmt fuel r1 with
-          | some (as, sc, rest) => some ((k, k.map Tok.ch) :: as, sc, rest)
+          | some (as, sc, rest) =>
+            if as.any (fun kv => kv.1 = k) then none else some ((k, k.map Tok.ch) :: as, sc, rest)
           | none => none
         else none
     | _ => none
